@@ -326,6 +326,8 @@ func (c *compiler) evalUserFunction(node *userFunction, args []ast.Expression) (
 			// context): the lines of its body count there; here the
 			// failing statement is the one that holds the call
 			c.curStmt = caller
+			// ... also when it sits in the block of a helper in that body
+			err = &elsewhereError{err}
 		}
 		return nil, err
 	}
